@@ -5,7 +5,7 @@ package main
 // MemLimit).  A panic is reported by the worker as "panic ...", a hang as "hang", an
 // out-of-memory abort as "crash ...": all of them fail the oracle.  In addition the bytes
 // allocated during the call are measured (runtime.MemStats.TotalAlloc): more than
-// allocBase + allocFactor*len(input) is "allocating memory far beyond the size of the input".
+// allocBase(entry) + allocFactor*len(input) is "allocating memory far beyond the size of the input".
 // One op per entry point (p_total_<entry>) so that the entry is part of the failure text.
 
 import (
@@ -13,6 +13,7 @@ import (
 	"crypto/sha256"
 	"encoding/binary"
 	"encoding/json"
+	"errors"
 	"fmt"
 	"io"
 	"reflect"
@@ -29,6 +30,7 @@ import (
 	"github.com/linuxboot/fiano/pkg/intel/me"
 	"github.com/linuxboot/fiano/pkg/intel/metadata/bg/bgbootpolicy"
 	"github.com/linuxboot/fiano/pkg/intel/metadata/bg/bgkey"
+	"github.com/linuxboot/fiano/pkg/intel/metadata/cbnt"
 	"github.com/linuxboot/fiano/pkg/intel/metadata/cbnt/cbntbootpolicy"
 	"github.com/linuxboot/fiano/pkg/intel/metadata/cbnt/cbntkey"
 	"github.com/linuxboot/fiano/pkg/intel/metadata/fit"
@@ -36,10 +38,27 @@ import (
 	. "verifharness/common"
 )
 
+// Allocation limit per call: allocBase(entry) + allocFactor * len(input).  The decompressors (and
+// CBFS, whose Decompress calls them) have a legitimate working set that does not depend on the
+// input: the LZMA dictionary fiano's own encoder announces (8 MiB), the 4 MiB block buffers of
+// LZ4; they keep the generous 64 MiB.  The other entry points are plain parsers: what they
+// legitimately hold is copies of (parts of) the input, covered by the factor, and small fixed
+// tables (the largest measured: 2.8 MB, a manifest list allocated by a 16-bit count); 16 MiB is
+// more than five times that, so that a 32 MiB allocation for a 32-byte input (2^20 table entries
+// announced by a count field that was only checked against a generous upper limit) is reported.
 const (
-	allocBase   = 64 << 20
-	allocFactor = 64
+	allocBaseDecoder = 64 << 20
+	allocBaseParser  = 16 << 20
+	allocFactor      = 64
 )
+
+func allocBase(entry string) uint64 {
+	switch entry {
+	case "lzma", "lzmax86", "lz4", "zlib", "brotli", "cbfs":
+		return allocBaseDecoder
+	}
+	return allocBaseParser
+}
 
 type entryFn func(b []byte)
 
@@ -60,6 +79,10 @@ func lzmaDictBeyondCeiling(name string, b []byte) (uint32, bool) {
 	return 0, false
 }
 
+// lzmaOwnDict: the largest dictionary fiano's own LZMA.Encode announces (level 7: 8 MiB); a stream
+// announcing more than that is the hostile case of the known third-party finding
+const lzmaOwnDict = 8 << 20
+
 func totalOp(name string, f entryFn) Op {
 	return func(args []string) string {
 		b := decodeInput(args[0])
@@ -71,7 +94,7 @@ func totalOp(name string, f entryFn) Op {
 		f(b)
 		runtime.ReadMemStats(&m1)
 		alloc := m1.TotalAlloc - m0.TotalAlloc
-		if alloc > allocBase+allocFactor*uint64(len(b)) {
+		if alloc > allocBase(name)+allocFactor*uint64(len(b)) {
 			if d, _ := lzmaDictBeyondCeiling(name, b); d >= 32<<20 {
 				return fmt.Sprintf("FAIL third-party-lzma-dict-alloc header announces a dictionary of %d bytes, allocated=%d input=%d", d, alloc, len(b))
 			}
@@ -95,6 +118,7 @@ func opTotalManifest(args []string) string {
 
 func registerEntries() {
 	Register("p_total_manifest", opTotalManifest)
+	Register("p_seed_ok", opSeedOK)
 	names := make([]string, 0, len(entries))
 	for n := range entries {
 		names = append(names, n)
@@ -139,9 +163,17 @@ func eCbfs(b []byte) {
 	_, _ = i.MarshalJSON()
 	for _, s := range i.Segs {
 		f := s.GetFile()
-		_, _ = f.Decompress()
-		_ = f.Compression()
+		c := f.Compression()
 		_, _ = f.FindAttribute(cbfs.Compressed)
+		_, _ = f.FindAttribute(cbfs.Tag(0x68736148))
+		_, _ = f.MarshalJSON()
+		// Decompress of an LZMA file hands FData to the third-party LZMA reader: a stream header
+		// announcing more than fiano's own encoder ever does is the known dictionary-allocation
+		// finding (reported through p_total_lzma) and is not executed here
+		if c == cbfs.LZMA && len(f.FData) >= 13 && binary.LittleEndian.Uint32(f.FData[1:5]) > lzmaOwnDict {
+			continue
+		}
+		_, _ = f.Decompress()
 	}
 }
 
@@ -210,9 +242,25 @@ func eFitInject(b []byte) {
 		img := append([]byte{}, b...)
 		_ = es.Inject(img, off)
 	}
+	// the way cmds/fittool writes a table: recalculate the headers of the list, then inject
+	if err := recalc(es); err == nil {
+		img := append([]byte{}, b...)
+		_ = es.Inject(img, uint64(len(b))/2)
+	}
 	_ = fit.CalculatePhysAddrFromOffset(uint64(len(b)), uint64(len(b)))
 	_ = fit.CalculateOffsetFromPhysAddr(^uint64(0), uint64(len(b)))
 	_ = fit.CalculateTailOffsetFromPhysAddr(uint64(len(b)))
+}
+
+// RecalculateHeaders panics by design on a list whose data segments are 256 MiB or longer
+// (Uint24.SetUint32): such lists are not built here
+func recalc(es fit.Entries) error {
+	for _, e := range es {
+		if len(e.GetEntryBase().DataSegmentBytes) >= 1<<24 {
+			return fmt.Errorf("data segment too long for the harness")
+		}
+	}
+	return es.RecalculateHeaders()
 }
 
 // ---------- Boot Guard / CBnT manifests ----------
@@ -224,6 +272,9 @@ func eCbntBPM(b []byte) {
 	m := cbntbootpolicy.NewManifest()
 	_, _ = m.ReadFrom(bytes.NewReader(b))
 }
+
+// the one hand-written (not generated) reader of pkg/intel/metadata/cbnt
+func eCbntACMInfo(b []byte) { _, _, _ = cbnt.ParseChipsetACModuleInformation(bytes.NewReader(b)) }
 
 // the per-entry data parsers of FIT reach the manifests through DetectBGV
 func eFitKM(b []byte) {
@@ -262,6 +313,13 @@ func eAmdFirmware(b []byte) {
 			if err == nil {
 				_, _ = psb.PatchPSPEntry(fw, level, id, bytes.NewReader(d), io.Discard)
 				_, _ = psb.PatchPSPEntry(fw, level, id, bytes.NewReader(append(d, 0)), io.Discard)
+			} else if e, err := psb.GetPSPEntry(fw.PSPFirmware(), level, id); err == nil {
+				// an entry that cannot be extracted (hostile location / size) is patched all the
+				// same, with a replacement of exactly the size the entry claims
+				_, _ = psb.PatchPSPEntry(fw, level, id, bytes.NewReader(nil), io.Discard)
+				if e.Size <= 1<<20 {
+					_, _ = psb.PatchPSPEntry(fw, level, id, bytes.NewReader(make([]byte, e.Size)), io.Discard)
+				}
 			}
 		}
 		for _, id := range []manifest.BIOSDirectoryTableEntryType{0x05, 0x07, 0x62, 0x70, 0x61} {
@@ -271,6 +329,11 @@ func eAmdFirmware(b []byte) {
 				_, _ = psb.DumpBIOSEntry(fw, level, id, inst, io.Discard)
 				if err == nil {
 					_, _ = psb.PatchBIOSEntry(fw, level, id, inst, bytes.NewReader(d), io.Discard)
+				} else if e, err := psb.GetBIOSEntry(fw.PSPFirmware(), level, id, inst); err == nil {
+					_, _ = psb.PatchBIOSEntry(fw, level, id, inst, bytes.NewReader(nil), io.Discard)
+					if e.Size <= 1<<20 {
+						_, _ = psb.PatchBIOSEntry(fw, level, id, inst, bytes.NewReader(make([]byte, e.Size)), io.Discard)
+					}
 				}
 			}
 		}
@@ -310,7 +373,29 @@ func testKeySet() psb.KeySet {
 	if k, err := psb.NewRootKey(bytes.NewBuffer(rootKeySeedBytes())); err == nil {
 		_ = ks.AddKey(k, psb.AMDRootKey)
 	}
+	// the keys of the tree's key database artifact: the PSP binary artifact is signed by one of them
+	if db := artifactCached("pkg/amd/psb/keys_artifacts_test.go", "keyDB"); len(db) > 80 {
+		buf := bytes.NewBuffer(db[80:])
+		for n := 0; buf.Len() > 0 && n < 64; n++ {
+			k, err := psb.NewKeyFromDatabase(buf)
+			if err != nil {
+				break
+			}
+			_ = ks.AddKey(k, psb.KeyDatabaseKey)
+		}
+	}
 	return ks
+}
+
+var artifactCache = map[string][]byte{}
+
+func artifactCached(rel, name string) []byte {
+	if b, ok := artifactCache[rel+"#"+name]; ok {
+		return b
+	}
+	b := artifact(rel, name)
+	artifactCache[rel+"#"+name] = b
+	return b
 }
 
 func ePsbKeys(b []byte) {
@@ -340,16 +425,39 @@ func ePsbKeyDB(b []byte) {
 	_, _ = psb.NewKeyFromDatabase(bytes.NewBuffer(b))
 }
 
-// a PSP binary validated at offset 0 of an image that is just the binary
+// pbFw: the PSP binary under test followed by a minimal embedded firmware structure (without
+// one NewAMDFirmware refuses the image); the first probed physical address maps to that structure
+type pbFw struct {
+	img    []byte
+	efsOff uint64
+}
+
+func (f pbFw) ImageBytes() []byte                 { return f.img }
+func (f pbFw) PhysAddrToOffset(p uint64) uint64   { return p - 0xfffa0000 + f.efsOff }
+func (f pbFw) OffsetToPhysAddr(off uint64) uint64 { return off - f.efsOff + 0xfffa0000 }
+
+func pspBinaryFirmware(b []byte) (*manifest.AMDFirmware, error) {
+	efs := make([]byte, 74)
+	binary.LittleEndian.PutUint32(efs, manifest.EmbeddedFirmwareStructureSignature)
+	return manifest.NewAMDFirmware(pbFw{img: append(append([]byte{}, b...), efs...), efsOff: uint64(len(b))})
+}
+
+// a PSP binary validated at offset 0 of an image that holds the binary (and nothing else a
+// directory would point to)
 func ePsbBinary(b []byte) {
-	fw, err := manifest.NewAMDFirmware(looseFw{b})
+	fw, err := pspBinaryFirmware(b)
 	if err != nil || fw == nil {
-		return
+		return // shows as p_seed_ok psb_binary => skip
 	}
 	ks := testKeySet()
 	_, _ = psb.ValidatePSPEntry(fw, ks, 0, uint64(len(b)))
 	_, _ = psb.ValidatePSPEntry(fw, ks, 0, uint64(len(b))+1)
+	_, _ = psb.ValidatePSPEntry(fw, ks, 0, uint64(len(b))+74)
 	_, _ = psb.ValidatePSPEntry(fw, psb.NewKeySet(), 0, uint64(len(b)))
+	if len(b) > 0x100 {
+		_, _ = psb.ValidatePSPEntry(fw, ks, 0, 0x100)
+		_, _ = psb.ValidatePSPEntry(fw, ks, 0, uint64(len(b))-1)
+	}
 }
 
 // ---------- APCB ----------
@@ -383,6 +491,16 @@ func eApcbUpsert(b []byte) {
 			_ = apcb.UpsertToken(id, apcb.PriorityMask(0xff), 0xffff, v, img)
 			img = append([]byte{}, b...)
 			_ = apcb.UpsertToken(id, apcb.CreatePriorityMask(apcb.PriorityLevelDefault), 1, v, img)
+			// the same with room behind the binary (an insertion needs 8 / 24 / 40 spare bytes;
+			// without them only the refusal is exercised)
+			if j < 1 {
+				for _, slack := range []int{8, 24, 64} {
+					img = append(append([]byte{}, b...), make([]byte, slack)...)
+					_ = apcb.UpsertToken(id, apcb.PriorityMask(0xff), 0xffff, v, img)
+					img = append(append([]byte{}, b...), make([]byte, slack)...)
+					_ = apcb.UpsertToken(id, apcb.CreatePriorityMask(apcb.PriorityLevelDefault), 1, v, img)
+				}
+			}
 		}
 	}
 }
@@ -429,6 +547,7 @@ func init() {
 	entries["bg_bpm"] = eBgBPM
 	entries["cbnt_km"] = eCbntKM
 	entries["cbnt_bpm"] = eCbntBPM
+	entries["cbnt_acminfo"] = eCbntACMInfo
 	entries["amd_firmware"] = eAmdFirmware
 	entries["amd_tables"] = eAmdTables
 	entries["psb_keys"] = ePsbKeys
@@ -444,4 +563,105 @@ func init() {
 	entries["lz4"] = eLZ4
 	entries["zlib"] = eZLIB
 	entries["brotli"] = eBrotli
+}
+
+// ---------- seed self-check ----------
+
+// p_seed_ok <kind> <input>: is the (unmodified) seed accepted by the entry point it was built for,
+// as deep as the seed is meant to reach?  "ok" = yes, "skip" = no.  It never fails: it makes the
+// quality of the seeds visible in the evidence (a seed its parser rejects exercises only the
+// first error path, whatever is substituted into it).
+func seedAccepted(kind string, b []byte) bool {
+	if t := typeOf(kind); t != nil {
+		p := reflect.New(t)
+		_, err := p.Interface().(codec).ReadFrom(bytes.NewReader(b))
+		return err == nil
+	}
+	switch kind {
+	case "fmap":
+		_, _, err := fmap.Read(bytes.NewReader(b))
+		return err == nil
+	case "cbfs":
+		i, err := cbfs.NewImage(bytes.NewReader(b))
+		return err == nil && len(i.Segs) > 0
+	case "fit_entries":
+		es, err := fit.GetEntries(b)
+		if err != nil || len(es) < 2 {
+			return false
+		}
+		for _, e := range es {
+			if len(e.GetEntryBase().HeadersErrors) > 0 {
+				return false
+			}
+		}
+		return true
+	case "fit_sacm":
+		_, err := fit.ParseSACMData(bytes.NewReader(b))
+		return err == nil
+	case "amd_firmware":
+		fw, err := psb.ParseAMDFirmware(b)
+		if err != nil {
+			return false
+		}
+		p := fw.PSPFirmware()
+		return p.PSPDirectoryLevel1 != nil && p.BIOSDirectoryLevel1 != nil && p.PSPDirectoryLevel2 != nil && p.BIOSDirectoryLevel2 != nil
+	case "amd_tables":
+		_, _, e1 := manifest.ParsePSPDirectoryTable(b)
+		_, _, e2 := manifest.ParseBIOSDirectoryTable(b)
+		_, _, e3 := manifest.ParseEmbeddedFirmwareStructure(bytes.NewReader(b))
+		return e1 == nil || e2 == nil || e3 == nil
+	case "psb_keys":
+		if _, err := psb.NewRootKey(bytes.NewBuffer(b)); err == nil {
+			return true
+		}
+		// a token key with a random signature: accepted up to the signature verification
+		_, err := psb.NewTokenKey(bytes.NewBuffer(b), testKeySet())
+		var sce *psb.SignatureCheckError
+		return err == nil || errors.As(err, &sce)
+	case "psb_keydb":
+		buf := bytes.NewBuffer(b)
+		buf.Next(80)
+		_, err := psb.NewKeyFromDatabase(buf)
+		return err == nil
+	case "psb_binary":
+		fw, err := pspBinaryFirmware(b)
+		if err != nil || fw == nil {
+			return false
+		}
+		res, err := psb.ValidatePSPEntry(fw, testKeySet(), 0, uint64(len(b)))
+		// reached the RSA verification (which a random signature fails) or passed it
+		return err == nil && (res.Error() == nil || res.SigningKey() != nil)
+	case "apcb_parse":
+		_, err := apcb.ParseAPCBBinaryTokens(b)
+		return err == nil
+	case "microcode":
+		_, err := microcode.ParseIntelMicrocode(bytes.NewReader(b))
+		return err == nil
+	case "me":
+		_, err := me.ParseIntelME(bytes.NewReader(b))
+		return err == nil
+	case "fsp":
+		_, err := fsp.NewInfoHeader(b)
+		return err == nil
+	case "lzma":
+		_, err := (&compression.LZMA{}).Decode(b)
+		return err == nil
+	case "lzmax86":
+		_, err := compression.CompressorFromGUID(&compression.LZMAX86GUID).Decode(b)
+		return err == nil
+	case "lz4":
+		_, err := (&compression.LZ4{}).Decode(b)
+		return err == nil
+	case "zlib":
+		_, err := (&compression.ZLIB{}).Decode(b)
+		return err == nil
+	}
+	return false
+}
+
+func opSeedOK(args []string) string {
+	if seedAccepted(args[0], decodeInput(args[1])) {
+		return "ok"
+	}
+	return "skip"
 }
